@@ -31,8 +31,9 @@ const (
 	SizeofHOBGenericHeader = 8
 	// SizeofHOBGUID is the size of the GUID HOB header prior to associated data.
 	SizeofHOBGUID = SizeofHOBGenericHeader + 16
-	// MaxGUIDHOBDataSize is the maximum size of an EFI_HOB_GUID_TYPE's associated data.
-	MaxGUIDHOBDataSize = 0x10000 - SizeofHOBGUID
+	// MaxGUIDHOBDataSize is the maximum size of an EFI_HOB_GUID_TYPE's associated data: the HOB's
+	// 16-bit length covers the header too and is a multiple of 8, so it is at most 0xFFF8.
+	MaxGUIDHOBDataSize = 0xFFF8 - SizeofHOBGUID
 )
 
 // EFIResourceType is an enum type for resource descriptors.
